@@ -65,6 +65,8 @@ SEVEN_HEADERS = [
     ('mime+ct+cte8bit+subject', [b'MIME-Version: 1.0', b'Content-Type: text/plain; charset="utf-8"',
                                  b'Content-Transfer-Encoding: 8bit', b'Subject: x']),
     ('subject+ct', [b'Subject: x', b'Content-Type: text/plain; charset=UTF-8']),
+    # the header claims 7bit, the body is 8-bit all the same: what counts is the body
+    ('ct+cte7bit', [b'Content-Type: text/plain; charset=utf-8', b'Content-Transfer-Encoding: 7bit']),
 ]
 ENCODERS = {'base64': encode_base64, 'quoted-printable': encode_quopri, 'none': None}
 # "decodes to the same text": the property does not say that the line-end convention of the decoded
